@@ -1,7 +1,10 @@
 pub mod c01;
 pub mod c02;
 pub mod c04;
+pub mod c05;
+pub mod c06;
 pub mod c07;
+pub mod c09;
 
 use crate::evidence::Ev;
 use crate::ledger::{self, GTx, GenCfg, Kind, Ledger};
